@@ -521,12 +521,15 @@ class Interp:
             a = self.ev(L); b = self.ev(R)
             self._lit = (strip(L).get('kind') in ('IntegerLiteral', 'CharacterLiteral') or (strip(L).get('kind') == 'UnaryOperator' and strip(strip(L)['inner'][0]).get('kind') == 'IntegerLiteral'),
                          strip(R).get('kind') in ('IntegerLiteral', 'CharacterLiteral') or (strip(R).get('kind') == 'UnaryOperator' and strip(strip(R)['inner'][0]).get('kind') == 'IntegerLiteral'))
-            try: return self.binop(op, a, b)
+            try: r = self.binop(op, a, b)
             finally: self._lit = (False, False)
+            self.no_unsigned_wrap(n, op, r)
+            return r
         if k == 'CompoundAssignOperator':
             name = self.lv(n['inner'][0]); v = self.ev(n['inner'][1]); op = n['opcode'][:-1]
             cur = self.env.get(name, Ptr('end', 0)) if name == '#end' else self.env[name]
-            self.store(name, self.binop(op, cur, v)); return self.env[name]
+            r = self.binop(op, cur, v); self.no_unsigned_wrap(n, op, r)
+            self.store(name, r); return self.env[name]
         if k == 'ConditionalOperator':
             c = self.truth(self.ev(n['inner'][0]))
             return self.ev(n['inner'][1 if c else 2])
@@ -548,6 +551,14 @@ class Interp:
 
     def subscript_hook(self, n, base, idx):
         raise Unsupported(f'subscript {base!r}[{idx!r}]')
+
+    def no_unsigned_wrap(self, n, op, r):
+        """integers are evaluated as mathematical integers: an unsigned-typed + - * whose result is negative wraps around in C
+        (((unsigned)c | 0x20u) - 'a' < 26u), which this evaluation does not model -> stop, never a verdict from the wrong value"""
+        if op in ('+', '-', '*') and isinstance(r, int) and not isinstance(r, bool) and r < 0:
+            t = (n.get('computeResultType') or n.get('type') or {}).get('qualType', '')
+            if re.match(r'(?:const )?(?:unsigned\b|size_t\b|uint\d*_t\b|uintptr_t\b)', t):
+                raise Unsupported(f'unsigned arithmetic wraps around ({t}: {op} gives a negative mathematical result): not modelled')
 
     def binop(self, op, a, b):
         cmpops = ('==', '!=', '<', '<=', '>', '>=')
